@@ -23,11 +23,17 @@ Record sdoc := {
 
 Inductive kind := KCombined | KInsertions | KDeletions.
 
-(* the keys of raw_diffs in _htmldiff, in insertion order *)
+Definition kind_of_name (n : str) : option kind :=
+  if str_eqb n (s2l "combined") then Some KCombined
+  else if str_eqb n (s2l "insertions") then Some KInsertions
+  else if str_eqb n (s2l "deletions") then Some KDeletions
+  else None.
+
+(* the keys of raw_diffs in _htmldiff, in insertion order: a view is rendered when include is one of
+   the values of its if-statement (table translated from the source on every run) *)
 Definition selected (include : str) : list kind :=
-  (if str_eqb include (s2l "all") || str_eqb include (s2l "combined") then [KCombined] else []) ++
-  (if str_eqb include (s2l "all") || str_eqb include (s2l "insertions") then [KInsertions] else []) ++
-  (if str_eqb include (s2l "all") || str_eqb include (s2l "deletions") then [KDeletions] else []).
+  flat_map (fun p : str * list str => if mem_str include (snd p) then match kind_of_name (fst p) with Some k => [k] | None => [] end else [])
+           Tables.include_table.
 
 Definition kind_name (k : kind) : str :=
   match k with KCombined => s2l "combined" | KInsertions => s2l "insertions" | KDeletions => s2l "deletions" end.
@@ -88,22 +94,6 @@ Definition view_doc (k : kind) (old new : sdoc) (title_ops : list (Z * str)) (ic
   end.
 
 (* ------------------------------------------------------------------ str(soup) *)
-Fixpoint key_ltb (a b : str) : bool :=
-  match a, b with
-  | [], [] => false
-  | [], _ :: _ => true
-  | _ :: _, [] => false
-  | x :: a', y :: b' => if N.ltb x y then true else if N.ltb y x then false else key_ltb a' b'
-  end.
-
-Fixpoint insert_attr (kv : str * str) (l : list (str * str)) : list (str * str) :=
-  match l with
-  | [] => [kv]
-  | x :: l' => if key_ltb (fst kv) (fst x) then kv :: l else x :: insert_attr kv l'
-  end.
-
-Definition sort_attrs (l : list (str * str)) : list (str * str) := fold_right insert_attr [] l.
-
 Definition raw_text_parent (name : str) : bool := str_eqb name (s2l "script") || str_eqb name (s2l "style").
 
 Fixpoint ser (raw : bool) (n : snode) : str :=
